@@ -733,7 +733,7 @@ impl Property for C11 {
         Isolation::Thread
     }
     fn cases(&self, tier: Tier) -> u32 {
-        tier.pick(6_000, 250_000)
+        tier.pick(40_000, 600_000)
     }
     fn strategy(&self, tier: Tier) -> BoxedStrategy<Case> {
         let st = proptest::collection::vec(sdir_strategy(), 1..7).prop_map(|dirs| Case::Static { dirs });
@@ -747,8 +747,28 @@ impl Property for C11 {
             2 => (0u8..5, 0u8..6, 0u8..2).prop_map(|(level, target, name)| Op::ProbeSpan { level, target, name }),
         ];
         let max = tier.pick(25usize, 40usize);
-        let dy = (proptest::collection::vec(sdir_strategy(), 0..3), proptest::collection::vec(ddir_strategy(), 1..4), any::<bool>(), proptest::collection::vec(op, 1..max)).prop_map(|(sdirs, ddirs, as_filter, ops)| Case::Dynamic { sdirs, ddirs, as_filter, ops });
-        prop_oneof![1 => st, 1 => dy].boxed()
+        let dy = (proptest::collection::vec(sdir_strategy(), 0..3), proptest::collection::vec(ddir_strategy(), 1..4), any::<bool>(), proptest::collection::vec(op.clone(), 1..max)).prop_map(|(sdirs, ddirs, as_filter, ops)| Case::Dynamic { sdirs, ddirs, as_filter, ops });
+        // nested template: spans whose values do / do not satisfy a value directive are entered
+        // inside each other and left again, with events in between
+        let nested = (proptest::collection::vec(sdir_strategy(), 0..2), (0u8..2, val_strategy(), 1u8..=5, proptest::option::weighted(0.5, 0u8..2)), proptest::collection::vec(ddir_strategy(), 0..2), any::<bool>(), proptest::collection::vec((0u8..2, proptest::option::weighted(0.8, val_strategy()), 0u8..6, 0u8..5), 2..4), proptest::collection::vec(op, 0..6))
+            .prop_map(|(sdirs, (f, v, level, span), mut ddirs, as_filter, spans, extra)| {
+                ddirs.insert(0, DDir { target: None, span: span.map(|_| 0), field: Some((f, Some(v))), level });
+                let mut ops = vec![];
+                for (i, (name, val, target, lvl)) in spans.iter().enumerate() {
+                    let (x, y) = if f % 2 == 0 { (*val, None) } else { (None, *val) };
+                    ops.push(Op::Open { slot: i as u8, name: *name & 0, target: *target, x, y });
+                    ops.push(Op::Enter { slot: i as u8 });
+                    ops.push(Op::Event { level: *lvl, target: *target });
+                }
+                for (_, _, target, lvl) in spans.iter().rev() {
+                    ops.push(Op::Exit);
+                    ops.push(Op::Event { level: *lvl, target: *target });
+                    ops.push(Op::Event { level: 0, target: *target });
+                }
+                ops.extend(extra);
+                Case::Dynamic { sdirs, ddirs, as_filter, ops }
+            });
+        prop_oneof![2 => st, 2 => dy, 1 => nested].boxed()
     }
     fn run(&self, case: &Case) -> Outcome {
         match case {
